@@ -27,8 +27,7 @@ def coeff(draw, mode):
         v = draw(st.integers(-9, 9))
         return v or 1
     if mode == "big":
-        v = draw(st.one_of(st.integers(-2 ** 70, 2 ** 70), st.sampled_from(SMALL)))
-        return v or 1
+        return draw(st.one_of(wide(70), st.sampled_from(SMALL)))
     # frac
     n = draw(st.integers(-6, 6)) or 1
     d = draw(st.sampled_from((1, 2, 2, 3, 4)))
@@ -70,11 +69,18 @@ def pts():
 
 # {{{ integer_power, Euclid, quotient
 
+def wide(bits):
+    """Integers that really use up to *bits* bits (Hypothesis' own integers()
+    strategy prefers small magnitudes)."""
+    return st.builds(lambda s, e, m: s * ((1 << e) + m % (1 << e)),
+                     st.sampled_from((1, -1)), st.integers(bits // 2, bits - 1),
+                     st.integers(0, 1 << bits))
+
 @st.composite
 def ipow_case(draw):
     dom = draw(st.sampled_from(("int", "int", "frac", "mat", "str")))
     if dom == "int":
-        x = draw(st.one_of(st.integers(-9, 9), st.integers(-2 ** 128, 2 ** 128)))
+        x = draw(st.one_of(st.integers(-9, 9), wide(128)))
     elif dom == "frac":
         x = [draw(st.integers(-2 ** 16, 2 ** 16)), draw(st.integers(1, 2 ** 16))]
     elif dom == "mat":
@@ -90,7 +96,7 @@ def ipow_case(draw):
 
 @st.composite
 def euclid_case(draw):
-    big = st.integers(-2 ** 128, 2 ** 128)
+    big = wide(128)
     c = draw(st.integers(0, 9))
     if c <= 3:
         return {"q": draw(big), "r": draw(big)}
@@ -98,9 +104,8 @@ def euclid_case(draw):
         q = draw(big)
         return {"q": q, "r": draw(st.sampled_from((q, -q, 0, 1, -1)))}
     if c == 5:        # common factor, multiples
-        g = draw(st.integers(1, 2 ** 64))
-        return {"q": g * draw(st.integers(-2 ** 40, 2 ** 40)),
-                "r": g * draw(st.integers(-2 ** 40, 2 ** 40))}
+        g = abs(draw(wide(64)))
+        return {"q": g * draw(wide(48)), "r": g * draw(wide(48))}
     if c == 6:        # consecutive Fibonacci-like (longest chains)
         a, b = 1, draw(st.integers(1, 3))
         for _ in range(draw(st.integers(5, 150))):
@@ -117,7 +122,7 @@ def euclid_case(draw):
 def gcd_many_case(draw):
     n = draw(st.integers(0, 6))
     g = draw(st.sampled_from((1, 1, 2, 6, 35, 2 ** 40 + 15)))
-    elem = st.one_of(st.integers(-60, 60), st.integers(-2 ** 64, 2 ** 64),
+    elem = st.one_of(st.integers(-60, 60), wide(64),
                      st.just(0))
     return {"args": [g * draw(elem) for _ in range(n)]}
 
@@ -126,15 +131,14 @@ def gcd_many_case(draw):
 def quotient_case(draw):
     c = draw(st.integers(0, 5))
     if c <= 1:
-        a, b = draw(st.integers(-2 ** 53 + 1, 2 ** 53 - 1)), \
-            draw(st.integers(-2 ** 53 + 1, 2 ** 53 - 1))
+        a, b = draw(wide(53)), draw(wide(draw(st.sampled_from((8, 30, 53)))))
     elif c == 2:
         g = draw(st.integers(1, 1000))
         a, b = g * draw(st.integers(-10 ** 4, 10 ** 4)), g * draw(st.integers(-999, 999))
     elif c == 3:
-        a, b = draw(st.integers(-2 ** 128, 2 ** 128)), draw(st.integers(-2 ** 128, 2 ** 128))
+        a, b = draw(wide(128)), draw(wide(128))
     elif c == 4:
-        a, b = draw(st.integers(-2 ** 128, 2 ** 128)), draw(st.sampled_from((1, -1, 2, -3)))
+        a, b = draw(wide(128)), draw(st.sampled_from((1, -1, 2, -3)))
     else:
         a, b = draw(st.integers(-100, 100)), draw(st.integers(-100, 100))
     return {"a": a, "b": b or 1, "ctor": draw(st.sampled_from(("quotient", "Rational")))}
@@ -351,10 +355,11 @@ def sym_terms(draw, symbolic=True, max_exp=8, min_terms=0):
 
 
 @st.composite
-def env_spec(draw):
+def env_spec(draw, ints=True):
     env = {}
+    pool = (1, -1, 2, -2, 3, 5, 10, 4, -3, 7) if ints else POINTS[1:] + (4, -3, 7)
     for nm in ("x", "y") + NAMES:
-        env[nm] = draw(st.sampled_from(POINTS[1:] + (4, -3, 7)))
+        env[nm] = draw(st.sampled_from(pool))
     if draw(st.integers(0, 7)) == 0:
         env["x"] = 0
     return env
@@ -369,8 +374,8 @@ def poly_eval_case(draw):
         exps = sorted(draw(st.lists(st.integers(0, 40), min_size=n, max_size=n,
                                     unique=True)))
         p = [[e, draw(coeff(mode))] for e in exps]
-    else:
-        p = draw(sym_terms(min_terms=1))
+        return {"p": p, "env": draw(env_spec(ints=False))}
+    p = draw(sym_terms(min_terms=1))
     return {"p": p, "env": draw(env_spec())}
 
 
